@@ -8,6 +8,7 @@ mod c03;
 mod c05;
 mod c06;
 mod c07;
+mod c08;
 mod c09;
 mod c16;
 mod c17;
@@ -51,6 +52,7 @@ fn main() {
         "C05" => c05::run_check(tier, replay),
         "C06" => c06::run(tier, replay),
         "C07" => c07::run(tier, replay),
+        "C08" => c08::run(tier, replay),
         "C09" => c09::run(tier, replay),
         "C16" => c16::run(tier, replay),
         "C17" => c17::run(tier, replay),
